@@ -268,6 +268,11 @@ size_t BitSequenceRG::select1(const size_t x1) const {
   if (x > ones)
     return (uint)(-1);
 
+  // there is no 0-th one: same answer as BitSequence::select1 (the binary
+  // search below would decrement r = mid - 1 past 0)
+  if (x == 0)
+    return (uint)(-1);
+
   // binary search over first level rank structure
   uint l = 0, r = n / s;
   uint mid = (l + r) / 2;
